@@ -54,7 +54,7 @@ Proof.
   - rewrite str_of_int_no_quote. reflexivity.
   - destruct (nth k (e_consts en) (CInt 0)); cbn [const_node js_receiver]; [|rewrite str_of_int_no_quote; reflexivity].
     match goal with |- context[starts_with ?q ?t] => destruct (starts_with q t) end; reflexivity.
-  - cbn [js_ok] in Hok. destruct (nth i (e_locals en) (Leaf KLocal "" 0 true)) as [k nme p fl| | | | | | | | | | | | | | | | | | | | |]; try contradiction. destruct k; try contradiction. reflexivity.
+  - cbn [js_ok] in Hok. destruct (nth i (e_locals en) (Leaf KLocal "" 0 true)) as [k nme p fl| | | | | | | | | | | | | | | | | | | | | |]; try contradiction. destruct k; try contradiction. reflexivity.
   - rewrite reify_args_eq. destruct (reify_args en pc args); reflexivity.
   - rewrite reify_args_eq. destruct (reify_args en pc args); reflexivity.
   - rewrite reify_args_eq. destruct (reify_args en pc items); reflexivity.
